@@ -1,11 +1,37 @@
-"""even-odd polygon membership.  Symbolically it is the abstract crossing-parity function PIP(vertices, x, y) that the
-assumed kernel contract also uses; natively it is an independent crossing-number computation."""
+"""even-odd polygon membership, from its definition: a point is inside iff the rightward horizontal ray from it crosses an odd
+number of edges; edge k runs from vertex k-1 (cyclically) to vertex k and crosses the ray iff its end points lie on different sides
+of the ray's line (y_k > y differs from y_{k-1} > y) and the edge meets that line to the right of the point.
+Symbolically the crossing count is the primitive-recursive function NCROSS(k) = number of crossing edges among the first k, given by
+its two defining equations (instantiated where it is used); PIP(vertices, x, y) := NCROSS(n) is odd.  The compiled kernel is verified
+against this definition from its .pyx text (contracts/k_kernels.py); the Python layer uses PIP through the kernel's contract.
+Natively it is an independent crossing-number computation."""
 import vprim
+
+
+def edge_crosses(vx, vy, x, y, k, n):
+    j = (k + n - 1) % n
+    return ((vy[k] > y) != (vy[j] > y)) and x < vx[k] + (y - vy[k]) * (vx[j] - vx[k]) / (vy[j] - vy[k])
+
+
+def crossings(vx, vy, x, y, k):
+    """number of crossing edges among edges 0 .. k-1"""
+    n = len(vx)
+    if vprim.SYMBOLIC:
+        c = vprim.uf('ncross', 'int', vx, vy, x, y, k)
+        # defining equations of the recursion, instantiated at k
+        vprim.fact(vprim.uf('ncross', 'int', vx, vy, x, y, 0) == 0)
+        if not (isinstance(k, int) and k <= 0):
+            prev = vprim.uf('ncross', 'int', vx, vy, x, y, k - 1)
+            vprim.fact(vprim.implies(k >= 1, c == prev + vprim.ite(edge_crosses(vx, vy, x, y, k - 1, n), 1, 0)))
+        return c
+    return sum(1 for i in range(k) if edge_crosses(vx, vy, x, y, i, n))
 
 
 def crossings_odd(vx, vy, x, y):
     if vprim.SYMBOLIC:
-        return vprim.uf('pip', 'bool', vx, vy, x, y)
+        p = vprim.uf('pip', 'bool', vx, vy, x, y)
+        vprim.fact(p == (crossings(vx, vy, x, y, len(vx)) % 2 == 1))
+        return p
     n = len(vx)
     odd = False
     for i in range(n):
